@@ -235,6 +235,7 @@ class Server:
           which becomes available once another thread gathers the result from (another end of) the pipeline.
         """
         self._pipeline_notfull = threading.Condition()
+        self._stopped = False
         _enter_server(self)
         return self
 
@@ -246,6 +247,14 @@ class Server:
           in the servlet will eventually see the sentinel and exit.
         - Wait for the servlet and all helper threads to exit.
         """
+        with self._pipeline_notfull:
+            # Accept no more requests, and wake up those waiting for a slot: nobody
+            # will serve or notify them from now on. In particular, the feeder thread
+            # of a stream that the consumer has walked away from (but has not closed)
+            # would otherwise keep enqueueing into the stopped server and then wait
+            # out its whole timeout, blocking the eventual close of that stream.
+            self._stopped = True
+            self._pipeline_notfull.notify_all()
         if self._onboard_thread is not None:
             # Let the onboarding thread finish moving the accepted inputs (e.g. those of
             # an abandoned stream) into the pipeline while the workers are still there to
@@ -321,6 +330,8 @@ class Server:
         uid = next(self._uid_counter)
 
         with self._pipeline_notfull:
+            if self._stopped:
+                raise RuntimeError('the server has been stopped')
             if len(pipeline) >= self._capacity:
                 if backpressure:
                     raise ServerBacklogFull(len(pipeline))
@@ -332,6 +343,8 @@ class Server:
                     if t <= 0:
                         raise ServerBacklogFull(len(pipeline), perf_counter() - t0)
                     self._pipeline_notfull.wait(t)
+                    if self._stopped:
+                        raise RuntimeError('the server has been stopped')
 
             pipeline[uid] = fut
             self._input_buffer.put((uid, x))
